@@ -18,3 +18,59 @@ theorem C03_heuristic_is_a_schedule (net : NetD F) (wf : net.WF) (ex : net.Expos
     (h₁ : net.solveWith Solve.pySched = .ok t₁) (h₂ : net.solveWith sched = .ok t₂) :
     ∀ x ∈ net.exposed, ∀ y ∈ net.exposed, t₁.sem x.2 y.2 = t₂.sem x.2 y.2 :=
   C03_schedule_independent net wf ex _ _ t₁ t₂ h₁ h₂
+
+/-! ### declaration order -/
+
+/-- the network relation only depends on the *set* of links (ends in either order) and the *set* of exposed pins -/
+theorem Sol_congr (net net' : NetD F) (hcomps : net'.comps = net.comps)
+    (hlinks : ∀ p q, net'.Lnk p q ↔ net.Lnk p q)
+    (hexp : ∀ p, p ∈ net'.exposed.map (·.2) ↔ p ∈ net.exposed.map (·.2))
+    (a b : PinRef → F) (h : net.Sol a b) : net'.Sol a b := by
+  have hinit : ∀ s' ∈ net'.initial, ∃ s ∈ net.initial, s.pins = s'.pins ∧ s.sem = s'.sem := by
+    intro s' hs'
+    obtain ⟨k, c, hk, rfl⟩ := (mem_initial net' s').1 hs'
+    rw [hcomps] at hk
+    exact ⟨net.mkSt k c, (mem_initial net _).2 ⟨k, c, hk, rfl⟩, rfl, rfl⟩
+  refine ⟨?_, ?_, ?_⟩
+  · intro s' hs'
+    obtain ⟨s, hs, hp, hsem⟩ := hinit s' hs'
+    rw [← hp, ← hsem]
+    exact h.comp s hs
+  · intro l hl
+    have : net.Lnk l.1 l.2 := (hlinks l.1 l.2).1 (Or.inl hl)
+    rcases this with hm | hm
+    · exact h.link _ hm
+    · have := h.link _ hm
+      exact ⟨this.2, this.1⟩
+  · intro s' hs' p hp hfree hne
+    obtain ⟨s, hs, hpins, _⟩ := hinit s' hs'
+    apply h.free s hs p (by rw [hpins]; exact hp)
+    · intro q hq; exact hfree q ((hlinks p q).2 hq)
+    · intro hmem; exact hne ((hexp p).2 hmem)
+
+/-- **declaration order is irrelevant**: two descriptions of the same circuit — the same components, the same set of
+connections listed in any order with their two ends in either order, the same exposures listed in any order —
+solved with any two merge schedules give the same coefficient between every pair of exposed pins -/
+theorem C03_declaration_independent (net net' : NetD F) (wf : net.WF) (wf' : net'.WF) (ex : net.ExposureOK)
+    (ex' : net'.ExposureOK) (hcomps : net'.comps = net.comps) (hlinks : ∀ p q, net'.Lnk p q ↔ net.Lnk p q)
+    (hperm : net'.exposed.Perm net.exposed) (sched sched') (t t' : St F)
+    (h : net.solveWith sched = .ok t) (h' : net'.solveWith sched' = .ok t') :
+    ∀ x ∈ net.exposed, ∀ y ∈ net.exposed, t.sem x.2 y.2 = t'.sem x.2 y.2 := by
+  have hexp : ∀ p, p ∈ net'.exposed.map (·.2) ↔ p ∈ net.exposed.map (·.2) := fun p => (hperm.map _).mem_iff
+  have hexp' : ∀ p, p ∈ net.exposed.map (·.2) ↔ p ∈ net'.exposed.map (·.2) := fun p => (hexp p).symm
+  have hs := C01_solve_solves net wf ex sched t h
+  have hs' := C01_solve_solves net' wf' ex' sched' t' h'
+  -- transport the second solution operator to the first description
+  have hs'' : net.SolvedBy t'.sem := by
+    constructor
+    · intro a b hab e he
+      have hab' : net'.Sol a b := Sol_congr net net' hcomps hlinks hexp a b hab
+      have := hs'.1 a b hab' e (hperm.symm.subset he)
+      rw [this]
+      exact (hperm.map _).sum_eq
+    · intro v
+      obtain ⟨a, b, hab, hv⟩ := hs'.2 v
+      refine ⟨a, b, Sol_congr net' net hcomps.symm (fun p q => (hlinks p q).symm) hexp' a b hab, ?_⟩
+      intro e he
+      exact hv e (hperm.symm.subset he)
+  exact C01_solution_unique net ex.nodup t.sem t'.sem hs hs''
